@@ -249,6 +249,10 @@ class SInt:
 
     __int__ = __index__
 
+    def __float__(self):
+        # e.g. "%g" % length in an error message: one branch per feasible value (bounded ranges only)
+        return float(self.__index__())
+
     def __hash__(self):
         return hash(self.__index__())
 
